@@ -84,6 +84,50 @@ pub fn gen_pool_gaps(src: &mut Src, max_ops: usize) -> Pool {
     Pool { mode: Mode::Gaps, ops, nodes }
 }
 
+/// Local generator for the shapes that need thousands of choices (big pools and their plans): a pure function of one
+/// choice word, so a case still is a function of its choice sequence (it just does not shrink below that word).
+pub struct Mix(pub u64);
+
+impl Mix {
+    pub fn next(&mut self) -> u64 {
+        self.0 = self.0.wrapping_add(0x9E37_79B9_7F4A_7C15);
+        crate::core::splitmix64(self.0)
+    }
+
+    pub fn below(&mut self, n: u64) -> u64 {
+        ((self.next() as u128 * n.max(1) as u128) >> 64) as u64
+    }
+
+    pub fn chance(&mut self, num: u64, den: u64) -> bool {
+        self.below(den) < num
+    }
+}
+
+/// Pools of hundreds to thousands of operations over many keys (round 11: sizes were a blind spot). Window mode (all stamps
+/// inside 3000 s) or Prefix mode (stamps over up to 6 h).
+pub fn gen_pool_big(src: &mut Src) -> Pool {
+    let n = *src.pick(&[200usize, 1_000, 1_023, 1_025, 3_000, 5_000]);
+    let mode = if src.chance(1, 2) { Mode::Prefix } else { Mode::Window };
+    let nodes: Vec<u8> = match src.below(3) {
+        0 => vec![1, 2],
+        1 => vec![1, 2, 3],
+        _ => vec![0, 7, 255],
+    };
+    let n_keys = (*src.pick(&[n as u64 / 4, n as u64, 4 * n as u64])).max(1);
+    let base = *src.pick(&[100_000u64, 3_700, 1_000_000]);
+    let window = if mode == Mode::Window { 3_000u64 } else { *src.pick(&[21_600u64, 8_000]) };
+    let mut mix = Mix(src.word());
+    let mut ops = vec![];
+    for i in 0..n as u64 {
+        // strictly increasing (time, counter): distinct by construction; bursts share a second
+        let secs = base + (i * window) / n as u64;
+        let stamp = crate::model::Stamp { secs, frac: (mix.below(3) * 100) as u8, counter: (i % 60_000) as u16, node: nodes[mix.below(nodes.len() as u64) as usize] };
+        ops.push(SetOp { key: 1 + mix.below(n_keys), stamp, delete: mix.chance(2, 5) });
+    }
+    ops.sort_by_key(|o| o.stamp);
+    Pool { mode, ops, nodes }
+}
+
 pub fn gen_pool(src: &mut Src, max_ops: usize) -> Pool {
     if src.chance(1, 4) {
         return gen_pool_long(src, max_ops);
@@ -118,6 +162,40 @@ pub fn gen_pool(src: &mut Src, max_ops: usize) -> Pool {
 pub fn gen_plan(src: &mut Src, pool: &Pool, sources: usize) -> ReplicaPlan {
     let n = pool.ops.len();
     let mut steps = vec![];
+    if n > 64 {
+        // a big pool: the plan is drawn from one choice word
+        let mut mix = Mix(src.word());
+        match pool.mode {
+            Mode::Window | Mode::Gaps => {
+                let keep = 1 + mix.below(9);
+                let mut chosen: Vec<usize> = (0..n).filter(|_| mix.below(10) < keep).collect();
+                // arbitrary order: Fisher-Yates
+                for i in (1..chosen.len()).rev() {
+                    let j = mix.below(i as u64 + 1) as usize;
+                    chosen.swap(i, j);
+                }
+                for i in chosen {
+                    steps.push((i, mix.below(sources as u64) as usize));
+                }
+            },
+            Mode::Prefix => {
+                let mut cut = std::collections::BTreeMap::new();
+                for node in &pool.nodes {
+                    let total = pool.ops.iter().filter(|o| o.stamp.node == *node).count();
+                    cut.insert(*node, mix.below(total as u64 + 1) as usize);
+                }
+                let mut cnt = std::collections::BTreeMap::<u8, usize>::new();
+                for (i, op) in pool.ops.iter().enumerate() {
+                    let c = cnt.entry(op.stamp.node).or_default();
+                    if *c < cut[&op.stamp.node] {
+                        *c += 1;
+                        steps.push((i, mix.below(sources as u64) as usize));
+                    }
+                }
+            },
+        }
+        return ReplicaPlan { steps };
+    }
     match pool.mode {
         Mode::Window | Mode::Gaps => {
             let mut chosen: Vec<usize> = (0..n).filter(|_| src.chance(2, 3)).collect();
@@ -156,6 +234,14 @@ pub fn build<const N: usize>(pool: &Pool, plan: &ReplicaPlan) -> OrSWotSet<N> {
 }
 
 pub fn pool_json(pool: &Pool) -> Value {
+    if pool.ops.len() > 64 {
+        return json!({
+            "mode": format!("{:?}", pool.mode),
+            "big_pool_of": pool.ops.len(),
+            "first_ops": pool.ops.iter().take(5).map(|o| o.json()).collect::<Vec<_>>(),
+            "last_op": pool.ops.last().map(|o| o.json()),
+        });
+    }
     json!({
         "mode": format!("{:?}", pool.mode),
         "ops": pool.ops.iter().map(|o| o.json()).collect::<Vec<_>>(),
@@ -163,5 +249,8 @@ pub fn pool_json(pool: &Pool) -> Value {
 }
 
 pub fn plan_json(plan: &ReplicaPlan) -> Value {
+    if plan.steps.len() > 64 {
+        return json!({"steps": plan.steps.len(), "first": plan.steps.iter().take(8).map(|(i, s)| format!("op{}@src{}", i, s)).collect::<Vec<_>>()});
+    }
     json!(plan.steps.iter().map(|(i, s)| format!("op{}@src{}", i, s)).collect::<Vec<_>>())
 }
